@@ -8,8 +8,10 @@ import (
 	"context"
 	"encoding/json"
 	"fmt"
+	"k8s.io/apimachinery/pkg/api/resource"
 	"math/rand"
 	"sort"
+	"strconv"
 	"strings"
 
 	jsonpatch "github.com/evanphx/json-patch"
@@ -103,13 +105,21 @@ func genC18(rng *rand.Rand, i int) *c18Case {
 	for c := 0; c < 1+rng.Intn(3); c++ {
 		pod.Spec.Containers = append(pod.Spec.Containers, corev1.Container{Name: fmt.Sprintf("c%d", c), Image: "img"})
 	}
+	if rng.Intn(5) == 0 {
+		// a template that already declares a device (hand-written, or admitted once under another definition)
+		q := resource.MustParse(strconv.Itoa(1 + rng.Intn(3)))
+		name := corev1.ResourceName([]string{"aliyun/member-eni", "aliyun/eni"}[rng.Intn(2)])
+		pod.Spec.Containers[0].Resources.Limits = corev1.ResourceList{name: q}
+		pod.Spec.Containers[0].Resources.Requests = corev1.ResourceList{name: q}
+	}
 	cs.Pod = pod
 	fixedName := cs.Owner == "" || cs.Owner == "StatefulSet"
 	scen := []string{"host-network", "ignored", "unmatched", "pn-pod-selector", "pn-ns-selector", "explicit", "request", "conflict", "fixed-unstable", "pod-eni-flag"}[rng.Intn(10)]
 	cs.Scenario = scen
 	// background PodNetworkings that never select this pod
 	for k := 0; k < rng.Intn(3); k++ {
-		cs.PNs = append(cs.PNs, c18PN(rng, fmt.Sprintf("bg%d", k), 1+rng.Intn(2), rng.Intn(2) == 0, rng.Intn(3) == 0, subsetZones(rng)))
+		// (selector-less definitions exist to be named by a pod-networks-request only: they select nobody)
+		cs.PNs = append(cs.PNs, c18PN(rng, fmt.Sprintf("bg%d", k), rng.Intn(3), rng.Intn(2) == 0, rng.Intn(3) == 0, subsetZones(rng)))
 	}
 	switch scen {
 	case "host-network":
@@ -441,8 +451,8 @@ func c18Judge(c *ctxT, cs *c18Case, raw []byte, resp admission.Response) {
 			r.Violate("C18.device-request", want, fmt.Sprintf("container 0 requests/limits of %s = %v/%v, networks = %d", want, c0.Resources.Requests, c0.Resources.Limits, nets), rep)
 		}
 	} else {
-		for name := range patched.Spec.Containers[0].Resources.Requests {
-			if strings.HasPrefix(string(name), "aliyun/") {
+		for name, q := range patched.Spec.Containers[0].Resources.Requests {
+			if o, had := cs.Pod.Spec.Containers[0].Resources.Requests[name]; strings.HasPrefix(string(name), "aliyun/") && !(had && o.Cmp(q) == 0) {
 				r.Violate("C18.device-request", "injection-off", "resource injected although injection is disabled", rep)
 			}
 		}
